@@ -484,3 +484,121 @@ def r04_13_wall_offset_decides_local_time(ctx: Ctx) -> RuleResult:
         else:
             rr.fail(f.qual, f"`{unparse(getattr(bad, '_parent', bad))[:80]}` reads `savings` while mapping a local time: only wall offsets determine which instants render to a local time", ctx.loc(f, bad))
     return rr
+
+
+# ------------------------------------------------------------------------------------------- R04.14 weekday adjustment of a rule's date
+
+
+@rule("C04")
+def r04_14_weekday_adjustment(ctx: Ctx) -> RuleResult:
+    """A zone rule such as "last Sunday of October" or "first Sunday on or after the 8th" is evaluated by taking an anchor date and
+    moving to the requested weekday: forwards (advance) or backwards, by 0 days if the anchor already falls on it.  The statements
+    that compute the step are followed for all 7 x 7 x 2 combinations of (weekday of the anchor, requested weekday, direction),
+    with the three inputs substituted as constants, and the resulting step is compared with the definition:
+    0 when equal, (wanted - current) mod 7 forwards, -((current - wanted) mod 7) backwards."""
+    import copy
+
+    rr = RuleResult("R04.14", "the weekday adjustment of a zone rule's anchor date moves by the definitional number of days for all 98 combinations of anchor weekday, requested weekday and direction", min_instances=98)
+    M = ctx.M
+    f = M.func("_ZoneYearOffset._get_occurrence_for_year")
+    block = next((n for n in f.body if isinstance(n, ast.If) and "day_of_week" in unparse(n.test) and any(isinstance(x, ast.Call) and isinstance(x.func, ast.Attribute) and x.func.attr == "plus_days" for x in ast.walk(n))), None)
+    if block is None:
+        raise AnalysisError(f"{f.qual}: weekday adjustment block not found")
+
+    class _Stop(Exception):
+        pass
+
+    def run(cur: int, want: int, adv: bool) -> int | None:
+        class Sub(ast.NodeTransformer):
+            def visit_Attribute(self, node):  # noqa: N802
+                t = unparse(node)
+                if t == "date.day_of_week":
+                    return ast.Constant(value=cur)
+                if t.endswith("__day_of_week") and t.startswith("self."):
+                    return ast.Constant(value=want)
+                if t == "self.advance_day_of_week" or t.endswith("__advance_day_of_week"):
+                    return ast.Constant(value=adv)
+                return self.generic_visit(node)
+
+        body = [Sub().visit(copy.deepcopy(s)) for s in block.body]
+        env: dict[str, object] = {}
+        step: list[int] = []
+
+        def ev(e):
+            if isinstance(e, ast.Constant):
+                return e.value
+            if isinstance(e, ast.Name):
+                if e.id in env:
+                    return env[e.id]
+                raise _Stop(e.id)
+            if isinstance(e, ast.BinOp):
+                a, b = ev(e.left), ev(e.right)
+                ops = {ast.Add: lambda: a + b, ast.Sub: lambda: a - b, ast.Mod: lambda: a % b, ast.Mult: lambda: a * b, ast.FloorDiv: lambda: a // b}
+                if type(e.op) in ops:
+                    return ops[type(e.op)]()
+                raise _Stop("op")
+            if isinstance(e, ast.UnaryOp):
+                v = ev(e.operand)
+                return (not v) if isinstance(e.op, ast.Not) else -v if isinstance(e.op, ast.USub) else v
+            if isinstance(e, ast.BoolOp):
+                vals = [ev(x) for x in e.values]
+                return all(vals) if isinstance(e.op, ast.And) else any(vals)
+            if isinstance(e, ast.Compare):
+                left = ev(e.left)
+                for op, c in zip(e.ops, e.comparators):
+                    r = ev(c)
+                    ok = {ast.Eq: left == r, ast.NotEq: left != r, ast.Lt: left < r, ast.LtE: left <= r, ast.Gt: left > r, ast.GtE: left >= r}.get(type(op))
+                    if ok is None:
+                        raise _Stop("cmp")
+                    if not ok:
+                        return False
+                    left = r
+                return True
+            if isinstance(e, ast.IfExp):
+                return ev(e.body) if ev(e.test) else ev(e.orelse)
+            if isinstance(e, ast.Call) and isinstance(e.func, ast.Attribute) and e.func.attr == "plus_days" and e.args:
+                step.append(ev(e.args[0]))
+                return "date"
+            if isinstance(e, ast.Call) and isinstance(e.func, ast.Name) and e.func.id == "_csharp_modulo" and len(e.args) == 2:
+                a, b = ev(e.args[0]), ev(e.args[1])
+                r = abs(a) % abs(b)
+                return -r if a < 0 else r
+            raise _Stop(type(e).__name__)
+
+        def walk(stmts):
+            for s in stmts:
+                if isinstance(s, (ast.Assign, ast.AnnAssign)) and s.value is not None:
+                    t = s.targets[0] if isinstance(s, ast.Assign) else s.target
+                    v = ev(s.value)
+                    if isinstance(t, ast.Name):
+                        env[t.id] = v
+                elif isinstance(s, ast.AugAssign) and isinstance(s.target, ast.Name):
+                    a, b = env[s.target.id], ev(s.value)
+                    env[s.target.id] = a + b if isinstance(s.op, ast.Add) else a - b if isinstance(s.op, ast.Sub) else a % b
+                elif isinstance(s, ast.If):
+                    walk(s.body if ev(s.test) else s.orelse)
+                elif isinstance(s, (ast.Expr, ast.Pass)):
+                    if isinstance(s, ast.Expr):
+                        ev(s.value)
+                else:
+                    raise _Stop(type(s).__name__)
+
+        try:
+            walk(body)
+        except _Stop:
+            return None
+        return sum(step) if step else 0
+
+    for cur in range(1, 8):
+        for want in range(1, 8):
+            for adv in (True, False):
+                rr.inst()
+                got = run(cur, want, adv)
+                exp = 0 if cur == want else ((want - cur) % 7 if adv else -((cur - want) % 7))
+                if got == exp:
+                    rr.ok()
+                elif got is None:
+                    rr.fail(f.qual, "the weekday adjustment uses a construct the follower does not evaluate (not decided)", ctx.loc(f, block))
+                else:
+                    rr.fail(f.qual, f"anchor on weekday {cur}, rule asks for weekday {want} {'on or after' if adv else 'on or before'}: the date is moved by {got} days, the definition gives {exp}", ctx.loc(f, block))
+    return rr
